@@ -409,6 +409,11 @@ func (self *_parser) parseObjectProperty() ast.Property {
 	if value == nil {
 		return nil
 	}
+	if tkn == token.PRIVATE_IDENTIFIER {
+		// private names are class elements only
+		self.error(keyStartIdx, "Unexpected private field")
+		return nil
+	}
 	if token.IsId(tkn) || tkn == token.STRING || tkn == token.NUMBER || tkn == token.ILLEGAL {
 		if generator {
 			return &ast.PropertyKeyed{
@@ -448,6 +453,10 @@ func (self *_parser) parseObjectProperty() ast.Property {
 		case (literal == "get" || literal == "set" || tkn == token.ASYNC) && self.token != token.COLON:
 			_, _, keyValue, tkn1 := self.parseObjectPropertyKey()
 			if keyValue == nil {
+				return nil
+			}
+			if tkn1 == token.PRIVATE_IDENTIFIER {
+				self.error(keyStartIdx, "Unexpected private field")
 				return nil
 			}
 
